@@ -347,14 +347,19 @@ fn main() {
     let out = a[4].clone();
     let per_type_random: usize = a[5].parse().unwrap();
     let mutation_bases: usize = a[6].parse().unwrap();
+    let (prop, id) = match a.get(7).map(|s| s.as_str()) {
+        Some("C13") => (Prop::C13, "C13"),
+        Some("C14") => (Prop::C14, "C14"),
+        _ => (Prop::All, "C12"),
+    };
     install_panic_hook();
     install_log_sink();
     let schema = Schema::parse(include_str!("layout.txt"));
     let keys: Vec<String> = schema.order.clone();
-    let mut report = Report::new("C12", &tier, seed, "exploration");
+    let mut report = Report::new(id, &tier, seed, "exploration");
     let plan = Plan { per_type_random, per_field_alone: 4, all_present: 4, mutation_bases, max_perms: 120, big: false };
     let make: &(dyn Fn() -> Box<dyn Sut> + Sync) = &|| Box::new(Child);
-    run_types(threads, seed, &mut report, &schema, &keys, Prop::All, "C12", &plan, make);
+    run_types(threads, seed, &mut report, &schema, &keys, prop, id, &plan, make);
     presence_floor(&mut report, &schema, &keys);
     // a field that can never be present/absent canonically is the generator's business, not a verdict
     let gaps = report.inconclusive.clone();
@@ -404,24 +409,43 @@ pub fn emit_crate(schema: &Schema, dir: &Path, repo: &str, harness: &str, seed: 
     src.push_str("        _ => None,\n    }\n}\n");
     src.push_str(MAIN_TAIL);
     std::fs::create_dir_all(dir.join("src")).expect("gen dir");
-    std::fs::write(dir.join("src/main.rs"), src).unwrap();
-    std::fs::write(dir.join("src/layout.txt"), schema.to_text()).unwrap();
+    // unchanged files keep their time stamps, so that cargo does not rebuild an identical crate (C12, C13 and C14 of one
+    // seed share it)
+    let write = |p: PathBuf, content: String| {
+        if std::fs::read_to_string(&p).ok().as_deref() != Some(content.as_str()) {
+            std::fs::write(&p, content).unwrap();
+        }
+    };
+    write(dir.join("src/main.rs"), src);
+    write(dir.join("src/layout.txt"), schema.to_text());
     let cargo = format!(
         "[package]\nname = \"gen_derive_sut\"\nversion = \"0.0.0\"\nedition = \"2021\"\n\n[workspace]\n\n[dependencies]\nzvt = {{ path = \"{repo}/zvt\" }}\nzvt_builder = {{ path = \"{repo}/zvt_builder\" }}\nrefcodec = {{ path = \"{harness}/refcodec\" }}\nlog = \"0.4.19\"\nchrono = \"0.4.24\"\nserde_json = \"1.0.105\"\n\n[profile.release]\nopt-level = 1\noverflow-checks = true\ndebug-assertions = true\ndebug = 0\nincremental = false\ncodegen-units = 16\n"
     );
-    std::fs::write(dir.join("Cargo.toml"), cargo).unwrap();
-    let _ = std::fs::copy(format!("{harness}/Cargo.lock"), dir.join("Cargo.lock"));
+    write(dir.join("Cargo.toml"), cargo);
+    if !dir.join("Cargo.lock").exists() {
+        let _ = std::fs::copy(format!("{harness}/Cargo.lock"), dir.join("Cargo.lock"));
+    }
 }
 
 pub fn run(ctx: &Ctx) -> i32 {
     let mut report = ctx.report("C12", "exploration");
-    let repo = std::env::var("VERIF_REPO_PATH").unwrap_or_else(|_| "/repo".into());
-    let harness = std::env::var("VERIF_HARNESS").unwrap_or_else(|_| "/verif/harness".into());
-    let work = PathBuf::from(std::env::var("VERIF_WORK").unwrap_or_else(|_| "/verif/.build/main".into()));
     let (n_crates, n_structs, per_type, bases) = if ctx.quick() { (1usize, 160usize, 150usize, 24usize) } else { (16, 320, 2000, 300) };
     report.rule = format!("{n_crates} generated crate(s) x {n_structs} struct definitions drawn from the attribute grammar of the derive macro (<= 8 fields, nesting <= 3, positional before tagged, distinct representable tags, repeated fields tagged or length-prefixed, rest-of-scope fields only last; types u8..u64/usize/String/NaiveDateTime/Option/Vec/nested; length styles none/Fixed/LLVAR/LLLVAR/BER; encodings Default/BigEndian/Bcd/Hex/Utf8; zvt_bmp and zvt_tlv forms; optional control field), compiled against /repo and run; per struct: systematic presence masks + {per_type} random canonical values judged as in C01/C03 (typed value constructed, serialised, deserialised; both directions against the reference codec interpreting the generator's own description), and the C13/C14 mutations on {bases} base values per struct. Non-trivial = non-empty encoding; distinct by hash of (type, bytes) within a crate, crates have disjoint types.");
     report.exhaustive = Some(false);
     report.assumptions = vec!["the generator only emits definitions inside the macro's documented grammar; a generated crate that does not compile makes the run inconclusive".into(), "the reference codec interprets the generator's own description of each struct (layout.txt next to the generated source)".into()];
+    if let Some(rc) = run_generated(ctx, &mut report, "C12", n_crates, n_structs, per_type, bases) {
+        return rc;
+    }
+    report.finish()
+}
+
+/// Generate `n_crates` crates of struct definitions, build them against the repository and run the engine for property
+/// `id` ("C12": everything; "C13" / "C14": only that property's mutations) on them; results are absorbed into `report`.
+/// The crate of a given (seed, k, n_structs) is identical for every id, so that it is built once.
+pub fn run_generated(ctx: &Ctx, report: &mut Report, id: &str, n_crates: usize, n_structs: usize, per_type: usize, bases: usize) -> Option<i32> {
+    let repo = std::env::var("VERIF_REPO_PATH").unwrap_or_else(|_| "/repo".into());
+    let harness = std::env::var("VERIF_HARNESS").unwrap_or_else(|_| "/verif/harness".into());
+    let work = PathBuf::from(std::env::var("VERIF_WORK").unwrap_or_else(|_| "/verif/.build/main".into()));
     let mut programs = 0u64;
     let results: Vec<Result<serde_json::Value, String>> = std::thread::scope(|s| {
         let handles: Vec<_> = (0..n_crates)
@@ -431,8 +455,7 @@ pub fn run(ctx: &Ctx) -> i32 {
                 s.spawn(move || -> Result<serde_json::Value, String> {
                     let seed = ctx.seed.wrapping_mul(1000).wrapping_add(k as u64);
                     let schema = gen_schema(seed, n_structs);
-                    let dir = work.join("gen").join(format!("crate{k}"));
-                    let _ = std::fs::remove_dir_all(&dir);
+                    let dir = work.join("gen").join(format!("crate{k}-{n_structs}"));
                     emit_crate(&schema, &dir, &repo, &harness, seed);
                     // crates are built one after the other into a shared target directory (dependencies compiled once)
                     Ok(json!({"dir": dir.to_string_lossy(), "seed": seed, "structs": schema.order.len()}))
@@ -475,15 +498,16 @@ pub fn run(ctx: &Ctx) -> i32 {
     if std::env::var("VERIF_C12_PREBUILD").is_ok() {
         // setup: only warm the dependency build of the generated crates
         println!("C12 prebuild: {} crate(s) built", bins.len());
-        return if bins.is_empty() { 2 } else { 0 };
+        return Some(if bins.is_empty() { 2 } else { 0 });
     }
     for chunk in bins.chunks(4) {
         let children: Vec<_> = chunk
             .iter()
             .map(|(k, bin, dir, seed)| {
-                let out = PathBuf::from(dir).join("result.json");
+                let out = PathBuf::from(dir).join(format!("result-{id}.json"));
+                let _ = std::fs::remove_file(&out);
                 let child = std::process::Command::new(bin)
-                    .args([ctx.tier.as_str(), &seed.to_string(), &threads_per.to_string(), out.to_str().unwrap(), &per_type.to_string(), &bases.to_string()])
+                    .args([ctx.tier.as_str(), &seed.to_string(), &threads_per.to_string(), out.to_str().unwrap(), &per_type.to_string(), &bases.to_string(), id])
                     .stdout(std::process::Stdio::null())
                     .spawn();
                 (*k, out, child)
@@ -508,7 +532,7 @@ pub fn run(ctx: &Ctx) -> i32 {
     for (k, v) in &dumps {
         // attach the struct's source to every violation's replay
         let mut v = v.clone();
-        let dir = work.join("gen").join(format!("crate{k}"));
+        let dir = work.join("gen").join(format!("crate{k}-{n_structs}"));
         if let Some(arr) = v["violations"].as_array_mut() {
             let src = std::fs::read_to_string(dir.join("src/main.rs")).unwrap_or_default();
             let layout = std::fs::read_to_string(dir.join("src/layout.txt")).unwrap_or_default();
@@ -521,7 +545,7 @@ pub fn run(ctx: &Ctx) -> i32 {
                 x["replay"]["layout"] = json!(lay);
                 // signatures of generated types are made stable across seeds: strip the struct's ordinal
                 let sig = x["signature"].as_str().unwrap_or("").to_string();
-                x["signature"] = json!(format!("C12 {}", refcodec::evidence::strip_numbers(&sig)));
+                x["signature"] = json!(format!("{id} generated type {}", refcodec::evidence::strip_numbers(&sig)).replacen("C12 generated type ", "C12 ", 1));
             }
         }
         report.absorb_json(&v);
@@ -541,5 +565,5 @@ pub fn run(ctx: &Ctx) -> i32 {
         }
     }
     // disk hygiene: keep sources of the last run (small), drop nothing else here; target dirs are reused across runs
-    report.finish()
+    None
 }
